@@ -243,26 +243,33 @@ var (
 // listen on all interfaces, so two checks running at the same time must not
 // share a range). The claim is a flock on a file that lives as long as the process.
 func portBase() int {
+	// blocks of 256 ports below the kernel's ephemeral range (32768-60999): a
+	// receiver port inside that range is now and then taken by an outgoing
+	// connection of some other process, and the transfer then times out
+	const first, nblocks = 10240, 88
 	if portBlock >= 0 {
-		return 20000 + 256*portBlock
+		return first + 256*portBlock
 	}
 	dir := "/root/verif-scratch/.portlocks"
 	os.MkdirAll(dir, 0755)
-	start := (os.Getpid() * 31) % 150
-	for k := 0; k < 150; k++ {
-		b := (start + k) % 150
-		f, err := os.OpenFile(filepath.Join(dir, fmt.Sprintf("b%03d", b)), os.O_CREATE|os.O_RDWR, 0644)
-		if err != nil {
-			continue
+	start := (os.Getpid() * 31) % nblocks
+	for attempt := 0; attempt < 240; attempt++ {
+		for k := 0; k < nblocks; k++ {
+			b := (start + k) % nblocks
+			f, err := os.OpenFile(filepath.Join(dir, fmt.Sprintf("b%03d", b)), os.O_CREATE|os.O_RDWR, 0644)
+			if err != nil {
+				continue
+			}
+			if err := syscall.Flock(int(f.Fd()), syscall.LOCK_EX|syscall.LOCK_NB); err != nil {
+				f.Close()
+				continue
+			}
+			portBlock, portBlockFile = b, f
+			return first + 256*b
 		}
-		if err := syscall.Flock(int(f.Fd()), syscall.LOCK_EX|syscall.LOCK_NB); err != nil {
-			f.Close()
-			continue
-		}
-		portBlock, portBlockFile = b, f
-		return 20000 + 256*b
+		time.Sleep(500 * time.Millisecond) // every block is taken by another check: wait for one
 	}
-	panic("no free port block")
+	panic("HARNESS ERROR: no free port block within 120 s")
 }
 
 func (st *Stack) enableAgents() error {
